@@ -174,7 +174,9 @@ func refChainsArgGroup(g *qGroup, out *[][]string, pathArgsInFilter *bool, inFil
 }
 func refChainsGroup(g *qGroup, prefix []string, out *[][]string, pathArgsInFilter *bool, inFilter bool) {
 	for _, o := range g.ops {
-		if o.path != nil {
+		if o.path != nil && o.path.root == '$' {
+			refChainsPath(o.path, nil, false, out, pathArgsInFilter, false) // a `$` path starts at the root wherever it stands
+		} else if o.path != nil {
 			refChainsPath(o.path, prefix, false, out, pathArgsInFilter, inFilter)
 		} else {
 			refChainsGroup(o.group, prefix, out, pathArgsInFilter, inFilter)
@@ -198,6 +200,12 @@ func c20Pred(r *rng, depth int, allowDollarArg bool) *qPath {
 	if depth > 0 && r.Intn(6) == 0 {
 		p.parts = append(p.parts, qPart{kind: 'f', group: c20Group(r, '@', depth-1, 1+r.Intn(2), allowDollarArg)}) // a filter inside a filter condition may read `$` too
 		p.parts = append(p.parts, qPart{kind: 'c', name: "Any"})
+		return p
+	}
+	if allowDollarArg && r.Intn(7) == 0 {
+		// the condition compares with `@.Add($.root)`: a keyless path as argument, reading a root field
+		keyless := &qPath{root: '@', parts: []qPart{{kind: 'c', name: "Add", args: []qArg{{path: &qPath{root: '$', parts: []qPart{{kind: 'k', name: r.Pick(c20Roots)}}}}}}}}
+		p.parts = append(p.parts, qPart{kind: 'c', name: "Greater", args: []qArg{{path: keyless}}})
 		return p
 	}
 	switch r.Intn(5) {
@@ -236,6 +244,15 @@ func c20Group(r *rng, root byte, depth int, n int, allowDollarArg bool) *qGroup 
 	for i := 0; i < n; i++ {
 		if depth > 0 && r.Intn(6) == 0 {
 			g.ops = append(g.ops, qOp{group: c20Group(r, root, depth-1, 1+r.Intn(2), allowDollarArg)})
+		} else if root == '@' && allowDollarArg && depth > 0 && r.Intn(9) == 0 {
+			// inside a nested group of a condition: a `$` path that has a filter of its own; or a keyless `@` member reading `$`
+			if r.Intn(2) == 0 {
+				dp := &qPath{root: '$', parts: []qPart{{kind: 'k', name: r.Pick(c20Roots)}, {kind: 'f', group: &qGroup{ops: []qOp{{path: &qPath{root: '@', parts: []qPart{{kind: 'k', name: r.Pick(c20Sub)}, {kind: 'c', name: "Equal", args: []qArg{{lit: "1"}}}}}}}}}, {kind: 'c', name: "Any"}}}
+				g.ops = append(g.ops, qOp{group: &qGroup{mode: "OR", ops: []qOp{{path: dp}}}})
+			} else {
+				kl := &qPath{root: '@', parts: []qPart{{kind: 'c', name: "Greater", args: []qArg{{path: &qPath{root: '$', parts: []qPart{{kind: 'k', name: r.Pick(c20Roots)}}}}}}}}
+				g.ops = append(g.ops, qOp{group: &qGroup{mode: "OR", ops: []qOp{{path: kl}}}})
+			}
 		} else if root == '@' {
 			g.ops = append(g.ops, qOp{path: c20Pred(r, depth, allowDollarArg)})
 		} else {
@@ -303,7 +320,11 @@ func c20Path(r *rng, depth int, argsInFilter bool) *qPath {
 			p.parts = append(p.parts, qPart{kind: 'k', name: r.Pick(c20Sub)})
 		}
 	}
-	switch r.Intn(7) {
+	switch r.Intn(9) {
+	case 6, 7:
+		// an argument that is a path without a key: `@` (the value the function is applied to) with a call whose argument reads `$`
+		keyless := &qPath{root: '@', parts: []qPart{{kind: 'c', name: "Add", args: []qArg{{path: &qPath{root: '$', parts: []qPart{{kind: 'k', name: r.Pick(c20Roots)}}}}}}}}
+		p.parts = append(p.parts, qPart{kind: 'c', name: r.Pick([]string{"Equal", "Greater", "AnyOf"}), args: []qArg{{path: keyless}}})
 	case 0:
 		p.parts = append(p.parts, qPart{kind: 'c', name: "Count"})
 	case 1:
@@ -368,7 +389,13 @@ func c20DocFor(r *rng) *Doc {
 	root := &Doc{K: 'o'}
 	for _, k := range c20Roots {
 		root.Keys = append(root.Keys, k)
-		switch r.Intn(4) {
+		switch r.Intn(5) {
+		case 4: // a list of numbers (conditions without a key apply to these)
+			arr := &Doc{K: 'a'}
+			for i := 0; i < 1+r.Intn(3); i++ {
+				arr.A = append(arr.A, dNum(r.Pick([]string{"0", "1", "2", "3"})))
+			}
+			root.Vals = append(root.Vals, arr)
 		case 0:
 			root.Vals = append(root.Vals, leaf())
 		case 1:
@@ -640,6 +667,23 @@ func runC20(c *Ctx) {
 	}
 	// named by the property / findings
 	emit(&qPath{root: '$', parts: []qPart{{kind: 'k', name: "a"}, {kind: 'c', name: "Equal", args: []qArg{{group: &qGroup{mode: "OR", ops: []qOp{{path: &qPath{root: '$', parts: []qPart{{kind: 'k', name: "b"}}}}}}}}}}}, nil, "named")
+	// a `$` path with its own filter inside the condition of another filter; keyless `@` paths that read `$` (argument, group member)
+	{
+		eq1 := func(k string) *qPath {
+			return &qPath{root: '@', parts: []qPart{{kind: 'k', name: k}, {kind: 'c', name: "Equal", args: []qArg{{lit: "1"}}}}}
+		}
+		dollarK := func(k string) *qPath { return &qPath{root: '$', parts: []qPart{{kind: 'k', name: k}}} }
+		inner := &qPath{root: '$', parts: []qPart{{kind: 'k', name: "a"}, {kind: 'f', group: &qGroup{ops: []qOp{{path: eq1("x")}}}}, {kind: 'c', name: "Any"}}}
+		emit(&qPath{root: '$', parts: []qPart{{kind: 'k', name: "b"}, {kind: 'f', group: &qGroup{ops: []qOp{{group: &qGroup{mode: "OR", ops: []qOp{{path: inner}}}}}}}}}, nil, "named/dollar-path-with-filter-in-condition")
+		emit(&qPath{root: '$', parts: []qPart{{kind: 'k', name: "b"}, {kind: 'k', name: "y"}, {kind: 'f', group: &qGroup{ops: []qOp{{path: eq1("z")}, {group: &qGroup{ops: []qOp{{path: inner}}}}}}}}}, nil, "named/dollar-path-with-filter-in-condition")
+		keyless := func(fn, k string) *qPath {
+			return &qPath{root: '@', parts: []qPart{{kind: 'c', name: fn, args: []qArg{{path: dollarK(k)}}}}}
+		}
+		emit(&qPath{root: '$', parts: []qPart{{kind: 'k', name: "a"}, {kind: 'c', name: "Equal", args: []qArg{{path: keyless("Add", "c")}}}}}, nil, "named/keyless-at-paths")
+		emit(&qPath{root: '$', parts: []qPart{{kind: 'k', name: "b"}, {kind: 'f', group: &qGroup{ops: []qOp{{group: &qGroup{mode: "OR", ops: []qOp{{path: keyless("Greater", "d")}}}}}}}, {kind: 'c', name: "Count"}}}, nil, "named/keyless-at-paths")
+		emit(&qPath{root: '$', parts: []qPart{{kind: 'k', name: "e"}, {kind: 'f', group: &qGroup{ops: []qOp{{path: &qPath{root: '@', parts: []qPart{{kind: 'k', name: "x"}, {kind: 'c', name: "Greater", args: []qArg{{path: keyless("Add", "ab")}}}}}}}}}, {kind: 'c', name: "Count"}}}, nil, "named/keyless-at-paths")
+		emit(&qPath{root: '$', parts: []qPart{{kind: 'k', name: "a"}, {kind: 'c', name: "AnyOf", args: []qArg{{group: &qGroup{mode: "OR", ops: []qOp{{path: keyless("Greater", "de")}}}}}}}}, nil, "named/keyless-at-paths")
+	}
 	// the same condition text first as a condition of a filter (its first key is a key of the elements), then as a query of its
 	// own and as the operand of a top-level group (its first key is a root field), and once more the other way round
 	for round := 0; round < 2; round++ {
